@@ -118,6 +118,7 @@ def native_coverage(prop, res, sig):
             "mem.flush_left (buffers)": st.get("place_left", 0),
             "mem.flush_right (buffers)": st.get("place_right", 0),
             "mem.interior (buffers)": st.get("place_mid", 0),
+            "mem.refill (buffers sharing memory that is rewritten between searches)": st.get("place_over", 0),
             "mem.kill_needle": st.get("needle_kills", 0),
             "prefilter.force_inert": st.get("forced_inert", 0),
             "object hand-offs (send/share)": [st.get("sends", 0), st.get("shares", 0)],
@@ -233,6 +234,9 @@ def run_property(prop, tier, seed):
         res = D.run_workers(exe, prop, seed, total, chunk, timeout_per_chunk=tmo, extra_args=extra)
     sig = D.distinct_sigs(exe, res.sig_files)
     cov = native_coverage(prop, res, sig)
+    if prop in D.HUGE_PROFILES:
+        cov["multi_gib_episode"] = ("skipped: did not finish within its wall-clock allowance on this tree (slow, not judged)"
+                                    if res.huge_skipped else "ran (family %d)" % D.HUGE_FAMILY)
     D.cleanup_outs(res)
     if res.violation is not None:
         rc = finish_violation(prop, tier, seed, exe, res, t0, cov)
